@@ -38,6 +38,10 @@ MEANING = {1: "jump network contains a zero jump", 2: "states list has duplicate
            6: "stateindex/starindex lookups inconsistent"}
 
 
+def ckey(cut):
+    return round(cut, 5) if isinstance(cut, float) else str(cut)
+
+
 def impl_starset(jn, crys, chem, N, origin, lattice=False):
     from onsager import crystalStars
     if lattice:
@@ -188,9 +192,17 @@ def history_tier(ck, violation, label, crys, chem, jn, cut, jumps, ops, nsites, 
                 elif op_[0] == "add":
                     if N + op_[1] > Nmax: continue                     # keep the object inside the explored ranges
                     other = crystalStars.StarSet(jn, crys, chem, op_[1], originstates=op_[2])
+                    N_before = N
                     if N < 1: N, o = op_[1], op_[2]
                     else: N = N + op_[1]
-                    S += other
+                    try:
+                        S += other
+                    except IndexError as e:
+                        if N_before >= 1 and not (sc.reach_bruteforce(jumps, N, nsites, False) - sc.reach_bruteforce(jumps, N_before, nsites, False)):
+                            violation("iadd-no-new-states", "S += other raised IndexError: %s although the sum adds no new state" % e,
+                                      dict(info, step=k, op=op_))
+                            break                                    # the object is left half-updated: stop this history
+                        raise
                     coqh.append("HAdd %d%%nat %s" % (op_[1], "true" if op_[2] else "false"))
                 elif op_[0] == "copy":
                     C = S.copy()
@@ -218,7 +230,7 @@ def history_tier(ck, violation, label, crys, chem, jn, cut, jumps, ops, nsites, 
                     else:
                         q_, badc = full_lookup_check(C, crys, chem, csts, universe, rng, 40)
                         for key, msg, detail in badc: violation("history-copy-" + key, msg, step, detail)
-                ck.case(key=(label, repr(crys), round(cut, 5), "hist", json.dumps(hist), k), nontrivial=len(stars) >= 2,
+                ck.case(key=(label, repr(crys), ckey(cut), "hist", json.dumps(hist), k), nontrivial=len(stars) >= 2,
                         kind="history:%dD-%s" % (crys.dim, op_[0]),
                         sample={"tier": "history", "crystal": label, "history": hist, "step": k, "N": N, "originstates": o,
                                 "Nstates": len(sts)} if stats["steps"] % 37 == 1 else None)
@@ -254,6 +266,7 @@ def run(ck):
     ncase = 0
     nhist = 0
     hstats = {"steps": 0, "same-range-flag-changes": 0}
+    substats = {"subnetworks": 0, "not-touching-every-site": 0}
 
     def violation(key, msg, info, detail=None):
         d = dict(info); d.update(detail or {})
@@ -263,14 +276,47 @@ def run(ck):
     import itertools
     corpus = [(nm,) + gen.named(nm) for nm in ("hcp", "honeycomb", "polar")] + \
              [("chiral-" + nm,) + sc.chiral_crystal(nm)[:2] for nm in ("p4", "P4/m", "P-3")]   # rotation axis without mirrors
-    for label, crys, chem in itertools.chain(corpus, gen.pool(rng, ncrys, random_frac=0.55)):
-        try:
-            net = gen.percolating_network(crys, chem, rng, maxjumps=ck.n(40, 60))
-        except Exception:
-            skipped["construct-failed"] += 1; continue
-        if net is None:
-            skipped["nonpercolating"] += 1; continue
-        cut, sl, jn = net
+    from onsager import crystal as _crystal
+    pairlone = _crystal.Crystal(np.eye(2), [[np.array([0., 0.]), np.array([.3, 0.]), np.array([.5, .5])]])   # close pair + lone site
+
+    def network_items():
+        """(label, crys, chem, cutoff description, jump network): for every crystal its percolating network and, on purpose,
+        networks that do NOT touch every site of the species / do not percolate: the shortest cutoff of a multi-site crystal
+        and user-selected sub-networks (subsets of the symmetry classes of a wider network)"""
+        fixed_sub = [("sub-hcp-oct-tet", ) + gen.named("hcp-oct-tet"), ("sub-pair-lone", pairlone, 0)]
+        for label, crys, chem in fixed_sub:
+            sh = gen.shells(crys, chem)
+            yield label + ":shortest", crys, chem, sh[0] + 1e-4, crys.jumpnetwork(chem, sh[0] + 1e-4)
+        for label, crys, chem in itertools.chain(corpus, gen.pool(rng, ncrys, random_frac=0.55)):
+            try:
+                net = gen.percolating_network(crys, chem, rng, maxjumps=ck.n(40, 60))
+            except Exception:
+                skipped["construct-failed"] += 1; net = None
+            else:
+                if net is None: skipped["nonpercolating"] += 1
+                else: yield label, crys, chem, net[0], net[2]
+            ns = len(crys.basis[chem])
+            try:
+                sh = gen.shells(crys, chem)
+                wide = crys.jumpnetwork(chem, sh[min(2, len(sh) - 1)] + 1e-4)
+            except Exception:
+                continue
+            if sum(len(t) for t in wide) > ck.n(40, 60): wide = crys.jumpnetwork(chem, sh[min(1, len(sh) - 1)] + 1e-4)
+            cands = []
+            if ns >= 2: cands.append(("shortest", crys.jumpnetwork(chem, sh[0] + 1e-4)))
+            if len(wide) >= 2:
+                k = rng.randint(1, len(wide) - 1)
+                pick = sorted(rng.sample(range(len(wide)), k))
+                cands.append(("classes%s" % pick, [wide[t] for t in pick]))
+            for tag, sub in cands:
+                if not sub or sum(len(t) for t in sub) == 0: continue
+                touched = set(i for t in sub for (i, j), dx in t)
+                if len(touched) < ns or rng.random() < 0.35:
+                    substats["subnetworks"] += 1
+                    if len(touched) < ns: substats["not-touching-every-site"] += 1
+                    yield "sub-" + label + ":" + tag, crys, chem, "sub-network %s" % tag, sub
+
+    for label, crys, chem, cut, jn in network_items():
         try:
             jumps = sc.latt_jumps(crys, chem, jn)
             ops = sc.ops_of(crys, chem)
@@ -332,10 +378,10 @@ def run(ck):
                     violation("exception", "StarSet raised %s: %s" % (type(e).__name__, e), info2); badf = []
                 for key, msg, detail in badf:
                     violation(key, msg, info2, detail)
-                ck.case(key=(label, repr(crys), round(cut, 5), N, origin, "gen-otherform"), nontrivial=len(stars) >= 2,
+                ck.case(key=(label, repr(crys), ckey(cut), N, origin, "gen-otherform"), nontrivial=len(stars) >= 2,
                         kind="forms:%dD-N%d" % (crys.dim, N))
                 ncase += 1
-                ck.case(key=(label, repr(crys), round(cut, 5), N, origin, "gen"), nontrivial=len(stars) >= 2,
+                ck.case(key=(label, repr(crys), ckey(cut), N, origin, "gen"), nontrivial=len(stars) >= 2,
                         kind="gen:%dD-N%d-o%d" % (crys.dim, N, origin),
                         sample={"op": "generate", "crystal": label, "cutoff": cut, "N": N, "originstates": origin,
                                 "Nstates": len(sts), "Nstars": len(stars), "G": len(ops)} if N == 2 and ncase % 7 == 0 else None)
@@ -373,10 +419,17 @@ def run(ck):
                             or A.Nshells != N1 or B.Nshells != N2:
                         bad.append(("add-mutates", "operand modified by the sum", {}))
                 except Exception as e:
-                    violation("exception", "StarSet sum raised %s: %s" % (type(e).__name__, e), info); continue
+                    grown = sc.reach_bruteforce(jumps, N1 + N2, nsites, False) - sc.reach_bruteforce(jumps, max(N1, N2) if not inplace else N1, nsites, False)
+                    if isinstance(e, IndexError) and not grown:
+                        # S(N1)+S(N2) must equal S(N1+N2) also when the wider range adds no state (finite / non-percolating network)
+                        violation("iadd-no-new-states", "StarSet sum raised %s: %s although S(%d)+S(%d) = S(%d) simply adds no new state"
+                                  % (type(e).__name__, e, N1, N2, N1 + N2), info)
+                    else:
+                        violation("exception", "StarSet sum raised %s: %s" % (type(e).__name__, e), info)
+                    continue
                 for key, msg, detail in bad + bad2:
                     violation("add-" + key, msg, info, detail)
-                ck.case(key=(label, repr(crys), round(cut, 5), N1, o1, N2, o2, inplace, "add"), nontrivial=len(stars) >= 2,
+                ck.case(key=(label, repr(crys), ckey(cut), N1, o1, N2, o2, inplace, "add"), nontrivial=len(stars) >= 2,
                         kind="add:%dD-%d+%d" % (crys.dim, N1, N2),
                         sample={"op": "add", "crystal": label, "N1": N1, "o1": o1, "N2": N2, "o2": o2, "Nstates": len(sts)}
                         if (N1, N2, o1, o2) == (1, 2, True, True) and cid % 5 == 0 else None)
@@ -412,7 +465,7 @@ def run(ck):
                 violation("exception", "diffgenerate raised %s: %s" % (type(e).__name__, e), info); continue
             for key, msg, detail in bad:
                 violation("diff-" + key, msg, info, detail)
-            ck.case(key=(label, repr(crys), round(cut, 5), N1, o1, N2, o2, "diff"), nontrivial=len(stars) >= 2,
+            ck.case(key=(label, repr(crys), ckey(cut), N1, o1, N2, o2, "diff"), nontrivial=len(stars) >= 2,
                     kind="diff:%dD-%d,%d" % (crys.dim, N1, N2))
             if len(sts) <= max_case_states and spent + len(sts) <= coq_budget_states:
                 spent += len(sts)
@@ -439,4 +492,5 @@ def run(ck):
     ck.extra["model_states_checked"] = spent
     ck.extra["skipped"] = skipped
     ck.extra["history_tier"] = hstats
+    ck.extra["subnetworks"] = substats
     ck.extra["traces_validated_against_impl"] = len(codes)
